@@ -89,9 +89,14 @@ func init() {
 					add("asm", "verifH_c01_hash_api", P("tier", t, "a", sp[0], "b", sp[1], "c", sp[2]))
 				}
 			}
+			// blockGeneric vs the standard's CF, by chained lemmas (no UF override here)
+			cs = append(cs, driver.Case{Harness: "verifH_c01_block", Pkg: pk, Config: "purego", Params: P("blocks", 1), TimeoutS: 3000})
+			if tier != "quick" {
+				cs = append(cs, driver.Case{Harness: "verifH_c01_block", Pkg: pk, Config: "purego", Params: P("blocks", 2), TimeoutS: 3000})
+			}
 			return cs
 		},
-		Functions: []string{"internal/sm3.(*digest).{Write,Sum,checkSum,Reset,MarshalBinary,AppendBinary,UnmarshalBinary,Kdf}", "internal/sm3.{New,Kdf,kdf,kdfGeneric,kdfBy4,kdfBy8,prepareInitData,block}", "internal/byteorder"},
+		Functions: []string{"internal/sm3.blockGeneric (vs GB/T 32905 CF, chained lemmas)", "internal/sm3.(*digest).{Write,Sum,checkSum,Reset,MarshalBinary,AppendBinary,UnmarshalBinary,Kdf}", "internal/sm3.{New,Kdf,kdf,kdfGeneric,kdfBy4,kdfBy8,prepareInitData,block}", "internal/byteorder"},
 		Assumptions: []string{
 			"UF-C: the compression function CF(V,B) is an uninterpreted function; every block routine (blockGeneric in purego; blockAMD64/blockSIMD/blockAVX2/blockMultBy4/8 + copyResultsBy4/8 in the asm build) is replaced by the contract 'fold CF over the 64-byte chunks' with its memory footprint asserted",
 			"one step from an arbitrary valid state (h arbitrary, nx buffered bytes, stale bytes after them arbitrary, len = 64q+nx with q < 2^54): digests of arbitrarily long messages and arbitrary Write/Sum/Reset/Marshal histories follow by induction",
@@ -99,10 +104,10 @@ func init() {
 			"dispatch tiers are selected by setting useAVX2/useAVX/useSSSE3 per case",
 		},
 		Bounds: map[string]string{
-			"quick":    "every nx 0..63; Write argument lengths around every block boundary up to 130 bytes; Sum with prefix/spare capacity; KDF: limit 1..3 (purego) and {1,3,4,5,7,8,9,12} output blocks on tiers scalar/SSSE3/AVX2 with keyLen at block boundaries; exported Kdf on used objects, two consecutive calls, len(z) in 15 classes incl. 52, 60..63 mod 64",
+			"quick":    "blockGeneric = CF for every chaining value and every 64-byte block (unbounded in the data); every nx 0..63; Write argument lengths around every block boundary up to 130 bytes; Sum with prefix/spare capacity; KDF: limit 1..3 (purego) and {1,3,4,5,7,8,9,12} output blocks on tiers scalar/SSSE3/AVX2 with keyLen at block boundaries; exported Kdf on used objects, two consecutive calls, len(z) in 15 classes incl. 52, 60..63 mod 64",
 			"thorough": "Write argument every length 0..260; KDF limits up to 17 blocks on every tier",
 		},
-		Outside: []string{"bodies of the assembly routines (sm3block_*.s, sm3blocks_*.s)", "equivalence of blockGeneric with the standard's CF (separate obligation, see DESIGN.md)", "single Write arguments longer than the bound", "total length >= 2^60 bytes"},
+		Outside: []string{"bodies of the assembly routines (sm3block_*.s, sm3blocks_*.s)", "single Write arguments longer than the bound", "total length >= 2^60 bytes"},
 		Oracle:  "GB/T 32905 padding / iteration and the KDF definition, harness/internal/sm3/c01.go",
 	})
 }
